@@ -19,6 +19,7 @@ import GeoProofs.Lemmas.MONOSweepC
 import GeoProofs.Lemmas.MONOFuelD
 import GeoProofs.Lemmas.MONOAtPoint
 import GeoProofs.Lemmas.MONOChain
+import GeoProofs.Lemmas.MONO2Glue
 import GeoProofs.Props.C19
 import Mathlib.Tactic.NormNum
 
@@ -495,5 +496,109 @@ theorem monotone_k2_witnesses_tile :
     (MonoBuild.monotoneSubdivision k2Witness2).isSome = true ∧
     tiles .notOutside (monoRings k2Witness2) (.multiPolygon k2Witness2) = true := by
   decide +kernel
+
+
+/-! ### ownership of the chain references: every emitted piece is `wellFormed` (MONO2) -/
+
+open Geo.MonoBuild Geo.Proofs.MONO Geo.Proofs.MONO2 in
+/-- [T] `monotone_pieces_wellFormed` under the ownership hypothesis. Full statement (not proved):
+`∀ ps ms, monotoneSubdivision ps = some ms → ∀ m ∈ ms, wellFormed m = true`.
+
+Proved here: it holds for every input whose run is *owned* — the decidable check `ownedSteps ps` (MONO2Defs): in the state
+returned by every `next_point` of the run, for the segments whose payload `process_next_pt` is about to read (the segments
+reported as ending at the point, and the active segment just below it): every ending segment is reported once and is not
+the segment below; the segment below is not reported as starting; the chain indices they hold as `chain_idx` or as a
+component of a registered `help` are in range and pairwise different (no chain index is held twice), a `helper_chain` of
+the segment below is in range, and a live chain held as `help` has its tip strictly before the point.
+From that, with no further hypothesis and for valid and invalid inputs alike, the chain invariant `WInv` is carried through
+the whole run: every live chain is increasing, has at least two coordinates, and all its coordinates but the tip lie
+before every queued event (`next_point`: `fix_top` only ever replaces a tip by the current point, MONO2Next; steps 3–5:
+`push` / `finish_with` / `swap_at_top` / `from_segment_pair`, MONO2Step, StepB, StepC), so `Chain::finish_with` only ever
+closes increasing chains (`monotone_chain_ops_keep_order`).
+
+What is missing for the unconditional statement is that ownership is itself an invariant of the run (the transfer of a
+chain index from an ending segment to a starting one / to a `help` cell and back, through `split_at`, which copies the
+payload). It is decided on every generated case instead: `ownedSteps` (and the stronger between-steps check `ownedRun`)
+held on all 31 500 inputs of an offline run of the `C10.monobuild` generator (valid polygons, multipolygons with touching
+rings, arbitrary vertex sequences; 10 567 of them panic), so no input violating it is known; on an input that did violate
+it the code could push onto a chain that is also closed as `help`, i.e. emit a piece whose chain is not increasing —
+which the clause `piece-chains-not-lexicographically-increasing` of `C10.monobuild` would report. -/
+theorem monotone_pieces_wellFormed_partial (ps : List Poly) (ms : List MonoPoly)
+    (hown : ownedSteps ps = true) (h : monotoneSubdivision ps = some ms) :
+    ∀ m ∈ ms, wellFormed m = true := by
+  unfold monotoneSubdivision at h
+  cases hb : buildState ps with
+  | none => rw [hb] at h; cases h
+  | some st =>
+    rw [hb] at h
+    simp only [Option.map_some, Option.some.injEq] at h
+    subst h
+    unfold buildState at hb
+    unfold ownedSteps at hown
+    simp only [List.all_eq_true] at hown
+    exact (buildLoop_winv _ _ _ _ (initState_sinv ps) (initState_winv ps) (fun r hr => hown r hr) hb).outs
+
+example : Geo.Proofs.MONO2.ownedSteps [lShape] = true ∧ Geo.Proofs.MONO2.ownedRun [lShape] = true := by decide +kernel
+
+/-- the repaired C10-K2 witnesses (a vertex inside another ring's edge: `split_at` copies a payload) are owned runs -/
+example : Geo.Proofs.MONO2.ownedSteps k2Witness1 = true ∧ Geo.Proofs.MONO2.ownedSteps k2Witness2 = true := by
+  decide +kernel
+
+example : ∀ m ∈ (MonoBuild.monotoneSubdivision k2Witness2).getD [], wellFormed m = true := by
+  cases h : MonoBuild.monotoneSubdivision k2Witness2 with
+  | none => simp
+  | some ms => exact monotone_pieces_wellFormed_partial _ ms (by decide +kernel) h
+
+open Geo.MonoBuild Geo.Proofs.MONO2 in
+/-- [T] point location in the emitted pieces is the chain specification (corollary of `monotone_pieces_wellFormed_partial`,
+`monoPoly_position_spec` and `monotonic_intersects_iff`): for every piece `m` that the model emits on an owned run and every
+coordinate `p` at which the chains of `m` are ordered (top above bottom — the second documented precondition of
+`MonoPoly::new`, a geometric fact about non-crossing chains that is not part of `wellFormed`),
+`MonoPoly::coordinate_position` is the between-the-chains classification; and `MonotonicPolygons::intersects(p)` says
+that `p` lies on a chain of some piece or strictly between the chains of some piece. -/
+theorem monotone_pieces_location_spec_partial (ps : List Poly) (ms : List MonoPoly)
+    (hown : ownedSteps ps = true) (h : monotoneSubdivision ps = some ms) (p : Pt) :
+    (∀ m ∈ ms, orderedAt m p = true → monoPos m p = specPos m p) ∧
+    ((∀ m ∈ ms, orderedAt m p = true) →
+      (monotonicIntersects ms p = true ↔
+        ∃ m ∈ ms, (onChain m.top p = true ∨ onChain m.bot p = true) ∨ (below m.top p = true ∧ above m.bot p = true))) := by
+  have hwf := monotone_pieces_wellFormed_partial ps ms hown h
+  refine ⟨fun m hm ho => monoPoly_position_spec m p (hwf m hm) ho, ?_⟩
+  intro hord
+  rw [monotonic_intersects_iff]
+  constructor
+  · rintro ⟨m, hm, hne⟩
+    refine ⟨m, hm, ?_⟩
+    have := (monoPoly_position_iff m p (hwf m hm) (hord m hm)).2.2
+    apply this.1
+    unfold monoIntersects
+    simpa using hne
+  · rintro ⟨m, hm, hc⟩
+    refine ⟨m, hm, ?_⟩
+    have := ((monoPoly_position_iff m p (hwf m hm) (hord m hm)).2.2).2 hc
+    unfold monoIntersects at this
+    simpa using this
+
+example : monoPos lPiece ⟨2, 2⟩ = specPos lPiece ⟨2, 2⟩ :=
+  (monotone_pieces_location_spec_partial [lShape] [⟨[⟨1,0⟩,⟨1,2⟩,⟨3,0⟩], [⟨1,0⟩,⟨3,0⟩]⟩, lPiece]
+    (by decide +kernel) (by decide +kernel) ⟨2, 2⟩).1 lPiece
+    (List.mem_cons_of_mem _ (List.mem_cons_self ..)) (by decide +kernel)
+
+/- NOT proved (item 3 of MONO2): for a `polyValid` polygon without holes the model does not return `none`. The
+panics of the model are: (a) `Active::cmp` on two segments that `LineOrPoint::partial_cmp` cannot order (`indexOf`,
+`indexNotOf`, the `sort_by` of `incoming` / `outgoing`), (b) `unwrap` on an empty chain slot / the `assert!`s of
+`process_next_pt` / `finish_with`, (c) `idx -= 1` at 0 in `handle_event`. The precise lemma that is missing for (a) is
+
+    ∀ a b ∈ st.active, ∀ la lb, st.lineOf a = some la → st.lineOf b = some lb →
+      (segments la, lb share no point other than a common end point) →
+      (both contain a point with the abscissa-then-ordinate position of the sweep point between their ends) →
+      ∃ o, la.cmp? lb = some o ∧ (o = .eq → a = b), and `cmp?` is transitive on such segments,
+
+i.e. that pairwise non-crossing proper lines that all span the current sweep position are totally (pre)ordered by
+`lineLineCmp` — from which `binarySearchBy` finds exactly the segment (`indexOf`) or its insertion position (`indexNotOf`)
+in a sorted active list, the active list stays sorted, and `prev_active` is the segment geometrically below. It needs the
+sub-segment invariant (every stored segment is a piece of an input edge, two pieces of one edge share at most an end
+point) and the non-crossing of the edges of a valid ring; (b) then needs the parity argument (`next_is_inside` alternates
+along the active list), which is what makes `help` / `helper_chain` exist when they are unwrapped. -/
 
 end Geo.Proofs.C10
